@@ -854,6 +854,15 @@ func runC13Case(scratch, bin, binRace string, k c13Case) (run c13Run, err error)
 	return run, nil
 }
 
+// LoadEmbeddedTileMatrixSet fills an unguarded cache map: the harness calls it from one goroutine at a time
+var tmsMu sync.Mutex
+
+func loadTms(name string) (tms20.TileMatrixSet, error) {
+	tmsMu.Lock()
+	defer tmsMu.Unlock()
+	return tms20.LoadEmbeddedTileMatrixSet(name)
+}
+
 // ---- expected content -----------------------------------------------------------------------------------------------
 
 type c13ExpRow struct {
@@ -871,7 +880,7 @@ type c13Expect struct {
 
 func c13Expected(k c13Case) (c13Expect, error) {
 	e := c13Expect{Rows: map[int][][]c13ExpRow{}}
-	tms, err := tms20.LoadEmbeddedTileMatrixSet(k.Tms)
+	tms, err := loadTms(k.Tms)
 	if err != nil {
 		return e, err
 	}
